@@ -57,6 +57,10 @@ async fn read_n(s: &mut TcpStream, n: usize, ms: u64) -> (Vec<u8>, bool) {
     (out, false)
 }
 
+fn c_name(n: &str) -> &str {
+    n
+}
+
 async fn run_case(w: &World, c: &Case, idx: usize) -> Vec<(String, String)> {
     let mut v = vec![];
     let Ok(mut s) = TcpStream::connect(w.socks).await else { return vec![("harness:connect".into(), c.name.clone())] };
@@ -127,9 +131,13 @@ async fn run_case(w: &World, c: &Case, idx: usize) -> Vec<(String, String)> {
             3 => rep[4] as usize + 2,
             _ => 5,
         };
-        let (more, c) = read_n(&mut s, rest, 3000).await;
+        let (more, ended) = read_n(&mut s, rest, 3000).await;
         rep.extend_from_slice(&more);
-        rclosed = c;
+        rclosed = ended;
+        if more.len() < rest || !matches!(rep[3], 1 | 3 | 4) || rep[0] != 5 {
+            v.push(("C16:malformed-reply".into(), format!("{}: the reply {:02x?} is not a complete SOCKS5 reply for its address type (version {}, ATYP {}: {} more bytes were due, {} came{})", c_name(&c.name), rep, rep[0], rep[3], rest, more.len(), if ended { ", then the connection ended" } else { "" })));
+            return v;
+        }
     }
     let success = rep.len() >= 2 && rep[0] == 5 && rep[1] == 0;
     match c.expect_tunnel {
@@ -270,6 +278,21 @@ pub fn run(tier: Tier) -> i32 {
             cases.push(Case { name: "domain length 255 (unresolvable)".into(), greeting: g.clone(), request: Some(req(5, 1, 0, 3, &d, 80)), cuts: vec![], expect_method_ok: true, expect_tunnel: None, truncated: false, gap_s: 0 });
             cases.push(Case { name: "domain length 1 (unresolvable)".into(), greeting: g.clone(), request: Some(req(5, 1, 0, 3, &[1, b'z'], 80)), cuts: vec![], expect_method_ok: true, expect_tunnel: None, truncated: false, gap_s: 0 });
             cases.push(Case { name: "domain invalid utf-8".into(), greeting: g.clone(), request: Some(req(5, 1, 0, 3, &[2, 0xff, 0xfe], 80)), cuts: vec![], expect_method_ok: true, expect_tunnel: None, truncated: false, gap_s: 0 });
+        }
+        // DOMAINNAME requests whose name is not an ordinary host name (colons, brackets, zone ids, address-like names)
+        for name in ["::1%1", "[::1]", "host:25", "fe80::1%lo", "a.b:c", "::1", "1.2.3.4.5", "127.0.0.1", "a", "-", "xn--nxasmq6b.invalid", "name with space", "tab\tname"] {
+            let mut d = vec![name.len() as u8];
+            d.extend_from_slice(name.as_bytes());
+            // to the refusing port: whatever the name resolves to (or not), no tunnel; exactly one well-formed reply
+            let expect = if name == "127.0.0.1" { None } else { None };
+            cases.push(Case { name: format!("domain {:?} to a refusing port", name), greeting: g.clone(), request: Some(req(5, 1, 0, 3, &d, w.closed_port)), cuts: vec![], expect_method_ok: true, expect_tunnel: expect, truncated: false, gap_s: 0 });
+        }
+        {
+            // an IPv4 literal sent as a DOMAINNAME to the accepting target: a tunnel to exactly that target
+            let name = "127.0.0.1";
+            let mut d = vec![name.len() as u8];
+            d.extend_from_slice(name.as_bytes());
+            cases.push(Case { name: "domain \"127.0.0.1\" to the accepting target".into(), greeting: g.clone(), request: Some(req(5, 1, 0, 3, &d, a4.port())), cuts: vec![], expect_method_ok: true, expect_tunnel: Some(a4), truncated: false, gap_s: 0 });
         }
         if let Some(t6) = &w.t6 {
             let a6 = t6.addr;
@@ -439,5 +462,5 @@ pub fn run(tier: Tier) -> i32 {
             rep.sections.insert("cases".into(), json!(cases.len()));
         }
     }
-    rep.finish("LX through the real SOCKS5 front-end: versions {0,4,5,6,255} x every method list of length <= 3 over {00,01,02,80,ff} (+ 255-long lists); every command byte 0..=255; rsv, request version, address types {0,1,2,3,4,5,255}, domain lengths {0,1,255}, unresolvable / invalid names, ::1, refusing port; every truncation of the request; the canonical exchange under every single forced TCP cut and byte-at-a-time, and under every single cut with 31 / 301 s of silence between the pieces; each case checked against a reference SOCKS5 model (method selection, tunnel only for CONNECT, 'succeeded' only with a working tunnel to the requested target, failures end only their connection); non-trivial = distinct case")
+    rep.finish("LX through the real SOCKS5 front-end: versions {0,4,5,6,255} x every method list of length <= 3 over {00,01,02,80,ff} (+ 255-long lists); every command byte 0..=255; rsv, request version, address types {0,1,2,3,4,5,255}, domain lengths {0,1,255}, unresolvable / invalid names, names with colons / brackets / zone ids / address-like names, ::1, refusing port; every truncation of the request; the canonical exchange under every single forced TCP cut and byte-at-a-time, and under every single cut with 31 / 301 s of silence between the pieces; each case checked against a reference SOCKS5 model (method selection, tunnel only for CONNECT, 'succeeded' only with a working tunnel to the requested target, failures end only their connection); non-trivial = distinct case")
 }
